@@ -84,6 +84,24 @@ def targeted_docs(rng, n):
         d = RawDoc("\n".join(lines))
         d.fault = "multi"
         docs.append(d)
+    # several signal handlers (and unknown members) in ONE nested-object / attached / gadget map: each is an error of its own
+    for k in range(max(2, n // 4)):
+        hs = ["onSectionClicked: function(i: int) { sp.value = i }", "onSectionPressed: function(i: int) { sp.value = i + %d }" % k,
+              "onSectionDoubleClicked: function(i: int) {}", "onSectionEntered: {}", "onGeometriesChanged: sp.clear()",
+              "onSortIndicatorChanged: {}", "onNoSuchSignal: {}"]
+        rng.shuffle(hs)
+        hh = hs[:rng.randint(2, 6)]
+        rng.shuffle(hs)
+        vh = hs[:rng.randint(2, 6)]
+        lines = ["import qmluic.QtWidgets", "QWidget {", "    QSpinBox { id: sp }", "    QGridLayout {", "    QTableView {"]
+        lines += ["        horizontalHeader.%s" % h for h in hh]
+        lines.append("        verticalHeader {\n            %s\n        }" % "\n            ".join(vh))
+        lines += ["        QLayout.onRowChanged: {}", "        QLayout.onColumnChanged: {}", "        QLayout.onDestroyed: {}",
+                  "        font.onBoldChanged: {}", "        font.onFamilyChanged: {}", "        font { onItalicChanged: {}; onKerningChanged: {} }",
+                  "    }", "    }", "}", ""]
+        d = RawDoc("\n".join(lines))
+        d.fault = "multi"
+        docs.append(d)
     # one attached type written in two spellings on one child (base class and concrete layout class)
     for k in range(max(2, n // 4)):
         kids = []
